@@ -913,3 +913,49 @@ def rule_basis_restored(ctx: Ctx) -> None:
                      func=fn.name, construct=f"{fn.name}: basis change not undone")
     if n == 0:
         raise AnalysisError("measure.basis-restored: no measure_* function found")
+
+
+# --------------------------------------------------------------------------- dim.symplectic-form
+
+
+def rule_symplectic_form_dim(ctx: Ctx) -> None:
+    """dim.symplectic-form: M P M'^T needs the form P = [[0, I], [I, 0]] to be as wide as M has *columns* (2n): its block size is half the
+    column count.  Sized from the row count it only fits an n x 2n stabilizer table by coincidence; for the 2n x 2n table of a Clifford
+    tableau the product has mismatched shapes and is_symplectic raises instead of answering."""
+    repo = ctx.repo
+    UT = "graphiq/backends/stabilizer/functions/utils.py"
+    m = repo.module(UT)
+    n = 0
+    for fn in [f for f in m.tree.body if isinstance(f, ast.FunctionDef)]:
+        blocks = [c for c in calls_in(fn) if (call_name(c) or "") == "np.block"]
+        if not blocks:
+            continue
+        ps = func_params(fn)
+        defs = {a.targets[0].id: a.value for a in ast.walk(fn) if isinstance(a, ast.Assign) and len(a.targets) == 1 and isinstance(a.targets[0], ast.Name)}
+        for b in blocks:
+            dims = {norm(x.args[0]) for x in ast.walk(b) if isinstance(x, ast.Call) and (call_name(x) or "") in ("np.eye", "np.identity") and x.args}
+            if len(dims) != 1:
+                continue
+            d = dims.pop()
+            src = defs.get(d)
+            if src is None:
+                continue
+            n += 1
+            ctx.touch(m, fn)
+            t = norm(src)
+            from_cols = any(f"{p_}.shape[1]" in t or f"np.shape({p_})[1]" in t for p_ in ps) and ("/ 2" in t or "// 2" in t or ">> 1" in t)
+            from_rows = any(f"{p_}.shape[0]" in t or f"np.shape({p_})[0]" in t or f"len({p_})" in t for p_ in ps)
+            # is the form multiplied with the parameter matrix in this function?
+            pname = next((norm(a.targets[0]) for a in ast.walk(fn) if isinstance(a, ast.Assign) and any(x is b for x in ast.walk(a.value))), None)
+            used = pname is not None and any(isinstance(x, ast.BinOp) and isinstance(x.op, ast.MatMult) and pname in (norm(x.left), norm(x.right)) for x in ast.walk(fn))
+            if from_cols or not used:
+                ctx.ok("dim.symplectic-form", m, b, what=f"{fn.name}: block size {t}")
+            elif from_rows:
+                ctx.fail("dim.symplectic-form", m, b,
+                         f"{fn.name} sizes the symplectic form from the row count (`{d} = {t}`) and multiplies it with the matrix itself: the product "
+                         f"needs a form as wide as the matrix has columns (block size = columns / 2); a 2n x 2n Clifford table makes it raise",
+                         func=fn.name, construct=f"{fn.name}: form sized by rows")
+            else:
+                raise AnalysisError(f"{fn.name}: cannot tell where the block size `{d}` of the symplectic form comes from")
+    if n == 0:
+        raise AnalysisError("dim.symplectic-form: no symplectic form construction found")
